@@ -952,6 +952,14 @@ impl Compiler {
             } => {
                 self.push_span(ctx.node_with_span(arg), ctx.ast);
 
+                // Nested args are accessed with signed 8-bit indices
+                if nested_args.len() > i8::MAX as usize {
+                    return self.error(ErrorKind::FunctionPropertyLimit {
+                        property: "nested args".into(),
+                        amount: nested_args.len(),
+                    });
+                }
+
                 let (size_op, size_to_check) = args_size_op(nested_args, ctx.ast);
                 self.push_op(size_op, &[arg_register, size_to_check as u8]);
                 self.compile_unpack_nested_args_of_tuple(arg_register, nested_args, ctx)?;
